@@ -60,6 +60,13 @@ def grow_cases(rng, caps, per_cap):
             out.append("%d %d %d %s %s" % (k, c0, initial, ops, ",".join(map(str, draws))))
     # re-writing a key that is already cached is a write like any other for the trigger: directories
     # over capacity, period <= 1, the first writes hit the pre-planted key
+    # every older entry has been read since the last maintenance and the directory is full: the
+    # write's own file must survive the maintenance this very write runs (it runs BEFORE the insertion)
+    for k in (0, 1, 2, 3, 4, 5):
+        for ops in ("Asss", "Apsp", "Assp"):
+            pool = draw_pool(rng, scale(k // 3))
+            draws = [rng.choice(pool) for _ in range(10)]
+            out.append("%d %d %d %s %s" % (k, rng.choice([0, MAX]), k, ops, ",".join(map(str, draws))))
     for k in (0, 1, 2, 3, 5):
         for ops in ("PPP", "PpP", "SPs", "PSP"):
             pool = draw_pool(rng, scale(k // 3))
